@@ -106,6 +106,26 @@ def generate(rng, tier, focus):
         if rng.random() < 0.3:
             acts.insert(rng.randrange(1, len(acts) + 1), sub(1, ["hot", rng.randrange(2)]))
         cases.append((scn(subjects=subj, handles=2, script_=acts), {"k": "hot"}))
+    # 5a. the same over plain Subjects with a subscriber that, from inside its j-th callback (its terminal callback included), makes
+    #     one of the inputs emit: what a still-attached input says while the terminal is being delivered must not get through
+    for _ in range(2500 if thorough else 400):
+        nm = rng.choice(["merge", "merge", "zip", "amb", "take_until", "skip_until", "sample", "switch_on_next", "concat", "combine_latest"])
+        p = scen.multi_op(rng, nm, scen.rand_chain(rng, ["hot", 0], rng.choice([0, 1])), [["hot", 1]])
+        p = scen.rand_chain(rng, p, rng.choice([0, 1]))
+        reacts = [(rng.randrange(0, 4), ["emit", rng.randrange(2), rng.choice(ALPHA)]) for _ in range(rng.choice([1, 1, 2]))]
+        acts = [sub(0, p, *reacts)]
+        for _ in range(rng.randrange(2, 7)):
+            acts.append(["emit", rng.randrange(2), rng.choice(ALPHA)])
+        cases.append((scn(subjects=[["subject"], ["subject"]], handles=1, script_=acts), {"k": "hot-feedback"}))
+        if rng.random() < 0.5:
+            # directed: merge of the two subjects; after m items input 0 terminates and the subscriber's terminal callback pushes into
+            # input 1, which merge has not let go of yet
+            m = rng.randrange(0, 3)
+            pm = scen.rand_chain(rng, op("merge", [], ["hot", 0], ["hot", 1]), rng.choice([0, 0, 1]), names=["map", "filter", "tap", "scan"])
+            if "filter" in sx.dumps(pm):
+                continue
+            acts = [sub(0, pm, (m, ["emit", 1, n(9)]))] + [["emit", rng.randrange(2), n(rng.choice([1, 2, 3]))] for _ in range(m)] + [["emit", 0, rng.choice([e(4), e(4), C])], ["emit", 1, n(8)]]
+            cases.append((scn(subjects=[["subject"], ["subject"]], handles=1, script_=acts), {"k": "hot-feedback"}))
     # 5b. a terminal that lands in the MIDDLE of a subject's fan-out: 2-3 subscribers attached directly to one subject all react to
     #     their j-th item by terminating (or feeding) that subject; whoever is served later must not see the item after the terminal
     for _ in range(1500 if thorough else 250):
